@@ -2,7 +2,7 @@
    (read.py / validate.py / assemble.py / Http1Client.send / Http1Server.send), or the output of the harness's
    Python port of the reference parser; check_case recomputes them with the models. *)
 From Coq Require Import List Bool NArith ZArith.
-From MV Require Import Base.Bytes Model.Http1Msg Model.BodySizePrelude Gen.BodySize Model.Http1Conn Model.Rfc9112.
+From MV Require Import Base.Bytes Model.Http1Msg Model.BodySizePrelude Gen.BodySize Model.Http1Conn Model.Rfc9112 Model.Http1Edit.
 Import ListNotations.
 
 Definition hdr_eqb (a b : header) : bool := bytes_eqb (fst a) (fst b) && bytes_eqb (snd a) (snd b).
@@ -69,6 +69,7 @@ Inductive case :=
 | FwdReq (r : request_head) (chunks : list bytes) (impl : rres (list cmd))
 | FwdResp (q : request_head) (r : response_head) (chunks : list bytes) (impl : list cmd)
 | AsmBody (hs : headers) (chunks : list bytes) (trailers : bytes) (impl : rres bytes)
+| SetContent (hs : headers) (value : bytes) (enc : option bytes) (impl_hs : headers) (impl_raw : bytes)
 | RefReqs (o : ref_opts) (s : bytes) (impl : ref_out (list ref_request))
 | RefResps (o : ref_opts) (methods : list bytes) (s : bytes) (impl : ref_out (list ref_response)).
 
@@ -106,6 +107,8 @@ Definition check_case (c : case) : bool :=
   | FwdReq r chunks impl => rres_eqb (list_eqb cmd_eqb) (forward_request r chunks) impl
   | FwdResp q r chunks impl => list_eqb cmd_eqb (forward_response q r chunks) impl
   | AsmBody hs chunks tr impl => rres_eqb bytes_eqb (assemble_body hs chunks tr) impl
+  | SetContent hs value enc ihs iraw =>
+      let (mhs, mraw) := set_content enc hs value in hdrs_eqb mhs ihs && bytes_eqb mraw iraw
   | RefReqs o s impl => pres_eqb (list_eqb refreq_eqb) (parse_requests o (S (length s)) s) impl
   | RefResps o ms s impl => pres_eqb (list_eqb refresp_eqb) (parse_responses o ms s) impl
   end.
